@@ -40,6 +40,7 @@ var Helpers = map[string]string{
 	"open": `<a href="`,
 	"gt":   `>`,
 	"hh":   `{{template "h" $}}`,
+	"bh":   `<b>` + Slot + `</b>`, // an element of its own around the action
 	"ot":   `<b title="` + Slot, // opens an attribute and interpolates into it: leaves the context it was called in
 }
 
